@@ -2,8 +2,8 @@ package main
 
 import (
 	"fmt"
-	"strconv"
 	"go/types"
+	"strconv"
 	"strings"
 
 	"golang.org/x/tools/go/ssa"
@@ -31,30 +31,34 @@ type deferred struct {
 
 // State is one symbolic path state.
 type State struct {
-	vals    map[ssa.Value]SVal
-	heaps   map[string]string // heap name -> current SMT term
+	caseName  string // the switch case (constant name) this path is in (`cases` blocks)
+	caseEntry *State
+
+	vals      map[ssa.Value]SVal
+	heaps     map[string]string // heap name -> current SMT term
 	heapAlloc map[string]string // heap name -> allocation counter when the current version was created
-	alloc   string
-	pc      []string
-	defers  []deferred
-	inLoop  map[*ssa.BasicBlock]bool // loop headers already cut on this path
-	trail   []string                 // human-readable path trace (block comments)
-	dead    bool
-	panicV  *SVal // non-nil while a panic propagates
-	lastPhi *ssa.BasicBlock
+	alloc     string
+	pc        []string
+	defers    []deferred
+	inLoop    map[*ssa.BasicBlock]bool // loop headers already cut on this path
+	trail     []string                 // human-readable path trace (block comments)
+	dead      bool
+	panicV    *SVal // non-nil while a panic propagates
+	lastPhi   *ssa.BasicBlock
 }
 
 func (s *State) clone() *State {
 	n := &State{
-		vals:   make(map[ssa.Value]SVal, len(s.vals)+8),
-		heaps:  make(map[string]string, len(s.heaps)+4),
+		vals:      make(map[ssa.Value]SVal, len(s.vals)+8),
+		heaps:     make(map[string]string, len(s.heaps)+4),
 		heapAlloc: make(map[string]string, len(s.heapAlloc)+4),
-		alloc:  s.alloc,
-		pc:     append([]string(nil), s.pc...),
-		defers: append([]deferred(nil), s.defers...),
-		inLoop: make(map[*ssa.BasicBlock]bool, len(s.inLoop)),
-		trail:  append([]string(nil), s.trail...),
-		panicV: s.panicV,
+		alloc:     s.alloc,
+		pc:        append([]string(nil), s.pc...),
+		defers:    append([]deferred(nil), s.defers...),
+		inLoop:    make(map[*ssa.BasicBlock]bool, len(s.inLoop)),
+		trail:     append([]string(nil), s.trail...),
+		panicV:    s.panicV,
+		caseName:  s.caseName, caseEntry: s.caseEntry,
 	}
 	for k, v := range s.vals {
 		n.vals[k] = v
@@ -80,51 +84,51 @@ func (s *State) assume(f string) {
 
 // Obligation is one verification condition.
 type Obligation struct {
-	Name    string
-	Kind    string
-	Fn      string
-	Label   string
-	Pos     string
-	Goal    string
-	PC      []string
-	Decls   []string // snapshot length marker: uses ex.decls[:NDecl]
-	NDecl   int
-	ex      *Exec
-	Trail   string
-	Props   []string
-	MustFail bool // vacuity probe: expected NOT to be provable
+	Name       string
+	Kind       string
+	Fn         string
+	Label      string
+	Pos        string
+	Goal       string
+	PC         []string
+	Decls      []string // snapshot length marker: uses ex.decls[:NDecl]
+	NDecl      int
+	ex         *Exec
+	Trail      string
+	Props      []string
+	MustFail   bool // vacuity probe: expected NOT to be provable
 	Structural bool // decided on the SSA without a solver
 	// results
-	Status string // proved, failed, unknown
-	Solver string
-	Time   float64
-	Model  string
-	Output string
-	Values map[string]string
+	Status  string // proved, failed, unknown
+	Solver  string
+	Time    float64
+	Model   string
+	Output  string
+	Values  map[string]string
 	witness []witnessTerm
 }
 
 // Exec generates the obligations of one function under contract.
 type Exec struct {
-	w      *World
-	fn     *ssa.Function
-	block  *Block
-	decls  []string
-	obls   []*Obligation
-	n      int
-	kindN  map[string]int
-	errs   []string
-	entry  *State
-	params map[string]CV
-	paths  int
+	w          *World
+	fn         *ssa.Function
+	block      *Block
+	decls      []string
+	obls       []*Obligation
+	n          int
+	kindN      map[string]int
+	errs       []string
+	entry      *State
+	params     map[string]CV
+	paths      int
 	mineListed []listedLoc
-	short  string
-	opts   *Options
-	notes  []string
-	pins   []listedLoc // read-only locations (package-level cells and their arrays): pinned to the entry heap at every havoc
-	witness []witnessTerm
-	measure0 string
-	exits  int
+	short      string
+	opts       *Options
+	notes      []string
+	pins       []listedLoc // read-only locations (package-level cells and their arrays): pinned to the entry heap at every havoc
+	witness    []witnessTerm
+	measure0   string
+	exits      int
 }
 
 type witnessTerm struct {
@@ -203,8 +207,8 @@ func (ex *Exec) havocHeap(st *State, name string) string {
 	return c
 }
 
-func sel(a, i string) string       { return "(select " + a + " " + i + ")" }
-func sto(a, i, v string) string    { return "(store " + a + " " + i + " " + v + ")" }
+func sel(a, i string) string    { return "(select " + a + " " + i + ")" }
+func sto(a, i, v string) string { return "(store " + a + " " + i + " " + v + ")" }
 func and(xs ...string) string {
 	var ys []string
 	for _, x := range xs {
@@ -259,6 +263,7 @@ func add(a, b string) string {
 	}
 	return "(+ " + a + " " + b + ")"
 }
+
 // idxT: position off+i of a slice element inside its backing array, written with the uninterpreted
 // wrapper idx (axiom: idx(o,i) = o+i) so that quantifier triggers contain no arithmetic.
 func idxT(off, i string) string {
@@ -281,8 +286,8 @@ func sub(a, b string) string {
 	}
 	return "(- " + a + " " + b + ")"
 }
-func le(a, b string) string      { return "(<= " + a + " " + b + ")" }
-func lt(a, b string) string      { return "(< " + a + " " + b + ")" }
+func le(a, b string) string { return "(<= " + a + " " + b + ")" }
+func lt(a, b string) string { return "(< " + a + " " + b + ")" }
 
 // slice selectors, simplified on literal (mkslice a o l c) terms
 func mkParts(s string) []string {
